@@ -77,6 +77,7 @@ func deepSize(v reflect.Value, seen map[uintptr]bool) int {
 type costResult struct {
 	alloc    uint64
 	size     int
+	heap     int64 // octets of heap kept alive by the decoded value (measured by the collector, so backing arrays a view pins are counted whole)
 	accepted bool
 }
 
@@ -92,6 +93,12 @@ func measure(f func() interface{}) costResult {
 	if v != nil {
 		res.accepted = true
 		res.size = deepSize(reflect.ValueOf(v), map[uintptr]bool{})
+		// what the value really pins: collect with only the value alive and compare the live heap
+		var m2 runtime.MemStats
+		runtime.GC()
+		runtime.ReadMemStats(&m2)
+		res.heap = int64(m2.HeapAlloc) - int64(m0.HeapAlloc)
+		runtime.KeepAlive(v)
 	}
 	return res
 }
@@ -214,6 +221,17 @@ func familyInputs(r *Run, n int) map[string][]byte {
 		}
 		out["v6-nested-iana"] = append([]byte{1, 0, 0, 1}, inner...)
 	}
+	{ // every container nested as deep as possible, each level also carrying an option with an unassigned code
+		// (kept as a generic option): whatever such a leaf pins besides its own few octets is retained per level
+		for _, c := range []struct{ code, hdr int }{{3, 12}, {25, 12}, {4, 4}, {5, 24}, {26, 25}, {17, 4}} {
+			var inner []byte
+			leaf := tlvb(0xfff0, []byte{1, 2, 3, 4})
+			for len(inner)+c.hdr+12 <= n-4 && len(inner)+c.hdr+12 < 65000 {
+				inner = tlvb(uint16(c.code), append(append(make([]byte, c.hdr), leaf...), inner...))
+			}
+			out[fmt.Sprintf("v6-nested-%d-unknown-leaf", c.code)] = append([]byte{1, 0, 0, 1}, inner...)
+		}
+	}
 	{ // nested relay messages
 		var inner = []byte{1, 0, 0, 1}
 		for len(inner)+38 < n && len(inner)+38 < 65000 {
@@ -333,12 +351,16 @@ const (
 	c09SizeFactor  = 300  // retained octets per input octet
 	c09AllocFactor = 1500 // allocated octets per input octet (decode + re-encode), excluding the nesting term
 	c09Slack       = 4096
+	c09HeapSlack   = 65536 // the live-heap difference also sees the runtime's own small allocations
 )
 
 func checkBound(r *Run, fam string, b []byte, res costResult, depth int) {
 	n := len(b)
 	if res.size > c09SizeFactor*n+c09Slack {
 		r.Fail("c09-size:"+fam, fmt.Sprintf("%s n=%d", fam, n), fmt.Sprintf("decoded value retains %d octets for %d input octets (> %d*n+%d)", res.size, n, c09SizeFactor, c09Slack))
+	}
+	if res.heap > int64(c09SizeFactor*n+c09HeapSlack) {
+		r.Fail("c09-retained-heap:"+fam, fmt.Sprintf("%s n=%d", fam, n), fmt.Sprintf("decoded value keeps %d octets of heap alive for %d input octets (> %d*n+%d)", res.heap, n, c09SizeFactor, c09HeapSlack))
 	}
 	bound := uint64(c09AllocFactor*n + depth*n + c09Slack)
 	if res.alloc > bound {
